@@ -51,13 +51,26 @@ fn check_history(hist: &[NaiveDate], extra_probes: &[NaiveDate], perm_seed: u64)
         return Err("default calendar is not empty".into());
     }
     for (i, x) in hist.iter().enumerate() {
-        let fresh = cal.insert(*x);
+        // a third of the insertions go through the public handle on the stored year
+        // (`year_for_mut(date)` -> `CompactYear::insert(month, day)`) when that year is stored
+        let via_handle = (i as u64 + perm_seed) % 3 == 1;
+        let fresh = match (via_handle, cal.year_for_mut(*x)) {
+            (true, Some(year)) => year.insert(x.month(), x.day()),
+            _ => cal.insert(*x),
+        };
         let exp = set.insert(*x);
         if fresh != exp {
-            return Err(format!("insert #{i} ({x}) returned {fresh}, expected {exp}"));
+            return Err(format!("insert #{i} ({x}{}) returned {fresh}, expected {exp}", if via_handle { ", through year_for_mut when the year is stored" } else { "" }));
         }
         if !cal.contains(*x) {
             return Err(format!("after insert #{i}: contains({x}) is false"));
+        }
+        match cal.year_for(*x) {
+            Some(year) if year.contains(x.month(), x.day()) => {}
+            other => return Err(format!("after insert #{i}: year_for({x}) = {:?}, which does not contain the date", other.map(|y| y.count()))),
+        }
+        if cal.count() as usize != set.len() {
+            return Err(format!("after insert #{i} ({x}{}): count() = {}, {} distinct dates were inserted", if via_handle { ", through year_for_mut when the year is stored" } else { "" }, cal.count(), set.len()));
         }
     }
     let mut probes: Vec<NaiveDate> = extra_probes.to_vec();
